@@ -8,6 +8,7 @@
 #include <unistd.h>
 
 using namespace vh;
+static std::string sci(double x) { char b[32]; snprintf(b, sizeof b, "%.3e", x); return b; }
 using orc::V3; using orc::R;
 
 namespace {
@@ -16,26 +17,63 @@ static uint64_t g_rng_base = 0; static std::mutex g_mu; static std::map<std::pai
 static uint64_t rng_seed(int site, uint64_t ctx) { std::lock_guard<std::mutex> lk(g_mu); uint64_t k = g_ctr[{site, ctx}]++; return hash_combine(hash_combine(g_rng_base, (uint64_t)site), hash_combine(ctx, k)); }
 
 static double g_limit = 1e300;
-static void on_phase(int tag, const std::vector<cell_ptr>* lp) { if (tag == 8 && tis::blown_up(*lp, g_limit)) throw tis::unstable_run(); }
 struct CellState { std::vector<std::array<double, 3>> X; std::vector<char> used; std::vector<std::array<unsigned, 3>> T; double V = 0, p = 0, Vt = 0, K = 0; unsigned id = 0; };
-struct State { std::vector<CellState> cells; long iters = 0; std::string exc; };
+struct State { std::vector<CellState> cells; long iters = 0; std::string exc; std::vector<CellState> div_cells; long div_iter = -1; long tie_pairs = 0; long first_tie_iter = -1; };
+static State* g_state = nullptr; static std::array<double, 3> g_shift = {0, 0, 0}; static size_t g_prev_count = 0; static double g_cut2 = 0;
+static long g_trace_it = 0;
+// A presented (node, face) pair whose outcome is decided by rounding: the node lies within the cut-off of the face, its closest point on the
+// face is not the foot of the perpendicular (vertex / edge region), and the vector from that point to the node is perpendicular to the face
+// normal up to 1e-7 - the sign test `(p - q).n < 0` of the repulsion rule then switches a finite force on or off by rounding noise.  After a
+// division the rim nodes of one daughter lie exactly in the plane of interface faces of the other, so such ties are systematic there.
+static void tie_pair(const cell* c1, const node* n, const cell* c2, const face* f) {
+    if (!g_state) return; const auto& nl = cell_tester::nodes(*c2);
+    const vec3 &p = n->pos(), &A = nl[cell_tester::n1(*f)].pos(), &B = nl[cell_tester::n2(*f)].pos(), &C = nl[cell_tester::n3(*f)].pos();
+    V3 P(p.dx(), p.dy(), p.dz()), a(A.dx(), A.dy(), A.dz()), b(B.dx(), B.dy(), B.dz()), cc(C.dx(), C.dy(), C.dz()), q;
+    R d2 = orc::closest_on_triangle(P, a, b, cc, q); if (!(d2 < (R)g_cut2) || !(d2 > 0)) return;
+    V3 nrm = (b - a).cross(cc - a); R nn = nrm.norm(); if (!(nn > 0)) return; V3 v = P - q;
+    if (std::fabs(v.dot(nrm)) <= 1e-7L * v.norm() * nn) { g_state->tie_pairs++; if (g_state->first_tie_iter < 0) g_state->first_tie_iter = g_state->iters; }
+    (void)c1;
+}
+static std::vector<std::array<unsigned, 4>> g_tr_pairs;
+static void tr_pair(const cell* c1, const node* n, const cell* c2, const face* f) { g_tr_pairs.push_back({c1->get_id(), n->get_local_id(), c2->get_id(), f->get_local_id()});
+    if (getenv("VH_TRACE_SEQ")) { FILE* tf = fopen("/tmp/vh_trace_seq.log", "a"); if (tf) { const vec3& fo = n->force(); const auto& nl = cell_tester::nodes(*c2); const node& a = nl[cell_tester::n1(*f)]; const node& b = nl[cell_tester::n2(*f)]; const node& cc = nl[cell_tester::n3(*f)];
+        fprintf(tf, "sq c %u n %u c2 %u f %u |F| %.10e coupled %d nn %.6e %.6e %.6e curv %.6e fn %.6e %.6e %.6e d2 %.10e %.10e %.10e\n", c1->get_id(), n->get_local_id(), c2->get_id(), f->get_local_id(), std::sqrt(fo.dx() * fo.dx() + fo.dy() * fo.dy() + fo.dz() * fo.dz()), (int)cell_tester::coupled(*n).has_value(), n->get_normal().dx(), n->get_normal().dy(), n->get_normal().dz(), n->get_curvature(), f->get_normal().dx(), f->get_normal().dy(), f->get_normal().dz(), (n->pos() - a.pos()).squared_norm(), (n->pos() - b.pos()).squared_norm(), (n->pos() - cc.pos()).squared_norm()); fclose(tf); } } }
+static void on_phase(int tag, const std::vector<cell_ptr>* lp) { if (tag == 8 && tis::blown_up(*lp, g_limit)) throw tis::unstable_run();
+    // state right after the first division of the run (before the daughters meet the contact rules)
+    if (g_state && tag == 0) g_prev_count = lp->size();
+    if (g_state && tag == 2 && g_state->div_iter < 0 && lp->size() > g_prev_count) { g_state->div_iter = g_state->iters;
+        for (auto& cp : *lp) { CellState cs; cs.id = cp->get_id(); for (const node& n : cell_tester::nodes(*cp)) { cs.X.push_back({n.pos().dx() - g_shift[0], n.pos().dy() - g_shift[1], n.pos().dz() - g_shift[2]}); cs.used.push_back(n.is_used()); }
+            for (const face& f : cell_tester::faces(*cp)) if (f.is_used()) cs.T.push_back({cell_tester::n1(f), cell_tester::n2(f), cell_tester::n3(f)}); g_state->div_cells.push_back(cs); } }
+    if (getenv("VH_TRACE_PH")) { if (tag == 0) g_trace_it++; if (tag == 4) { g_tr_pairs.clear(); verif::get().contact_pair = tr_pair; if (getenv("VH_TRACE_SEQ")) { FILE* tf = fopen("/tmp/vh_trace_seq.log", "a"); if (tf) { fprintf(tf, "IT %ld\n", g_trace_it); fclose(tf); } } }
+        if (tag == 5 && getenv("VH_TRACE_NODES")) { std::sort(g_tr_pairs.begin(), g_tr_pairs.end()); FILE* tf = fopen("/tmp/vh_trace_ph.log", "a"); for (auto& p : g_tr_pairs) fprintf(tf, "pp it %ld c %u n %u c2 %u f %u\n", g_trace_it, p[0], p[1], p[2], p[3]); fclose(tf); } FILE* tf = fopen("/tmp/vh_trace_ph.log", "a"); if (tf) { for (auto& cp : *lp) { std::vector<V3> P; std::vector<orc::Tri> T; std::vector<char> used; std::vector<unsigned> live; gen::extract(*cp, P, T, &used, &live); V3 ctr; for (unsigned k : live) ctr += P[k]; ctr = ctr / (R)live.size(); R vol = 0; for (auto& t : T) vol += (P[t.a] - ctr).dot((P[t.b] - ctr).cross(P[t.c] - ctr)) / 6;
+                R fsum = 0; for (unsigned k : live) { const vec3& f = cell_tester::nodes(*cp)[k].force(); fsum += std::fabs(f.dx()) + std::fabs(f.dy()) + std::fabs(f.dz()); }
+                long ncp = 0; uint64_t hc = 0; long nforced = 0;
+#if CONTACT_MODEL_INDEX == 1
+                for (unsigned k : live) { const node& nd = cell_tester::nodes(*cp)[k]; if (cell_tester::coupled(nd).has_value()) { ncp++; hc = hash_combine(hc, ((uint64_t)k << 32) | cell_tester::coupled(nd).value().second); } const vec3& f = nd.force(); if (f.dx() != 0 || f.dy() != 0 || f.dz() != 0) nforced++; }
+#endif
+                if (tag == 5 && getenv("VH_TRACE_NODES")) for (unsigned k : live) { const node& nd = cell_tester::nodes(*cp)[k]; const vec3& f = nd.force(); if (f.dx() != 0 || f.dy() != 0 || f.dz() != 0) fprintf(tf, "nf it %ld cell %u node %u f %.10e %.10e %.10e x %.10e %.10e %.10e\n", g_trace_it, cp->get_id(), k, f.dx(), f.dy(), f.dz(), nd.pos().dx() - (double)ctr.x, nd.pos().dy() - (double)ctr.y, nd.pos().dz() - (double)ctr.z); }
+                fprintf(tf, "ph it %ld tag %d cell %u faces %zu V %.14Le F %.14Le coupled %ld hash %016llx forced %ld\n", g_trace_it, tag, cp->get_id(), T.size(), vol, fsum, ncp, (unsigned long long)hc, nforced); } fclose(tf); } } }
+
 
 static State run(const tis::Scenario& s0, const std::array<double, 3>& t, uint64_t noise_seed, double noise_rel, uint64_t rng_base, const std::string& out) {
-    tis::Scenario s = s0; s.P.output_folder_path_ = out; State st;
+    tis::Scenario s = s0; s.P.output_folder_path_ = out; State st; g_trace_it = 0; if (getenv("VH_TRACE_PH")) { FILE* tf = fopen("/tmp/vh_trace_ph.log", "a"); if (tf) { fprintf(tf, "RUN\n"); fclose(tf); } tf = fopen("/tmp/vh_trace_seq.log", "a"); if (tf) { fprintf(tf, "RUN\n"); fclose(tf); } }
     Rng ng(noise_seed, 0, 0x14);
     for (auto& c : s.cells) for (auto& p : c.mesh.P) for (int d = 0; d < 3; d++) { double x = p[d]; if (noise_rel > 0) x *= (1.0 + noise_rel * ng.uni(-1, 1)); p[d] = x + t[d]; }
     { std::lock_guard<std::mutex> lk(g_mu); g_rng_base = rng_base; g_ctr.clear(); } verif::rng_context() = 0;
+    g_state = &st; g_shift = t; g_prev_count = s.cells.size(); g_cut2 = std::pow(std::max(s.P.contact_cutoff_adhesion_, s.P.contact_cutoff_repulsion_), 2);
+    if (!getenv("VH_TRACE_PH")) verif::get().contact_pair = tie_pair;
     try {
         std::vector<cell_ptr> cells = tis::build_cells(s);
         tis::msolver sv(s.P, cells, 1, true, false);
         while (!sv.finished()) { sv.run_iteration(); st.iters++;
-            if (getenv("VH_TRACE")) { for (auto& cp : sv.cells()) { double mx = 0; for (const node& n : cell_tester::nodes(*cp)) if (n.is_used()) mx = std::max({mx, std::fabs(n.pos().dx()), std::fabs(n.pos().dy()), std::fabs(n.pos().dz())}); fprintf(stderr, "it %ld cell %u type %s faces %zu V %.3e Vt %.3e p %.3e maxcoord %.3e\n", st.iters, cp->get_id(), cp->get_cell_type()->name_.c_str(), cp->get_nb_of_faces(), cp->get_volume(), cp->get_target_volume(), cp->get_pressure(), mx); } } }
+            if (getenv("VH_TRACE")) { for (auto& cp : sv.cells()) { double mx = 0; for (const node& n : cell_tester::nodes(*cp)) if (n.is_used()) mx = std::max({mx, std::fabs(n.pos().dx()), std::fabs(n.pos().dy()), std::fabs(n.pos().dz())}); { FILE* tf = fopen("/tmp/vh_trace_tr.log", "a"); if (tf) { fprintf(tf, "it %ld cell %u type %s faces %zu V %.13e Vt %.13e p %.13e maxcoord %.3e\n", st.iters, cp->get_id(), cp->get_cell_type()->name_.c_str(), cp->get_nb_of_faces(), cp->get_volume(), cp->get_target_volume(), cp->get_pressure(), mx); fclose(tf); } } } } }
         for (auto& cp : sv.cells()) { CellState cs; cs.V = cp->get_volume(); cs.p = cp->get_pressure(); cs.Vt = cp->get_target_volume(); cs.id = cp->get_id(); cs.K = cp->get_cell_type()->bulk_modulus_;
             for (const node& n : cell_tester::nodes(*cp)) { cs.X.push_back({n.pos().dx() - t[0], n.pos().dy() - t[1], n.pos().dz() - t[2]}); cs.used.push_back(n.is_used()); }
             for (const face& f : cell_tester::faces(*cp)) if (f.is_used()) cs.T.push_back({cell_tester::n1(f), cell_tester::n2(f), cell_tester::n3(f)});
             st.cells.push_back(cs); }
     } catch (const std::exception& e) { st.exc = e.what(); }
     catch (const tis::unstable_run&) { st.exc = "unstable: coordinates exploded"; }
+    g_state = nullptr; if (!getenv("VH_TRACE_PH")) verif::get().contact_pair = nullptr;
     std::error_code ec; std::filesystem::remove_all(out, ec); return st;
 }
 
@@ -47,6 +85,14 @@ static double compare(const State& a, const State& b, double& relVp) {
         if (x.V != 0) relVp = std::max(relVp, std::fabs(x.V - y.V) / std::fabs(x.V));
         // p = -K ln(V/Vt): an error dV/V in the volume is an absolute error K dV/V in the pressure, so the pressure is compared on the scale max(|p|, K)
         double ps = std::max({std::fabs(x.p), std::fabs(y.p), std::fabs(x.K)}); if (ps > 0) relVp = std::max(relVp, std::fabs(x.p - y.p) / ps); }
+    return dev;
+}
+
+// the same comparison on the snapshots taken right after the first division; -2: neither run divided
+static double compare_div(const State& a, const State& b) {
+    if (a.div_iter < 0 && b.div_iter < 0) return -2; if (a.div_iter != b.div_iter || a.div_cells.size() != b.div_cells.size()) return -1; double dev = 0;
+    for (size_t k = 0; k < a.div_cells.size(); k++) { const CellState &x = a.div_cells[k], &y = b.div_cells[k]; if (x.used != y.used || x.T != y.T || x.id != y.id) return -1;
+        for (size_t i = 0; i < x.X.size(); i++) if (x.used[i]) for (int d = 0; d < 3; d++) dev = std::max(dev, std::fabs(x.X[i][d] - y.X[i][d])); }
     return dev;
 }
 
@@ -63,12 +109,23 @@ static std::string one_case(const Args& a, long i) {
     State ref = run(s, zero, 0, 0, base, out);
     if (ref.exc.rfind("unstable", 0) == 0) { c.v = "skip"; c.msg = "unstable simulation (coordinates exploded): not a subject of this property"; c.obs.s("family", s.family).b("ill_conditioned", true); return c.line(); }
     // conditioning of the reference: two noise twins
-    State r1 = run(s, zero, 1, 1e-13, base, out), r2 = run(s, zero, 2, 1e-13, base, out);
+    // noise twins: every input coordinate perturbed by 1e-13 relative AND the whole tissue shifted by a random vector of 1e-11 L.  The shift
+    // scrambles the rounding pattern of every later operation; it reveals exact ties that only arise during the run (after a division the rim
+    // nodes of one daughter lie exactly in the plane of interface faces of the other: the sign test of the repulsion rule is then decided by
+    // rounding noise and switches a finite force on or off) and that a relative perturbation of the inputs alone leaves intact.
+    auto micro = [&](int k) { Rng mg(a.seed, (uint64_t)i, 0x140 + (uint64_t)k); std::array<double, 3> d = {mg.normal(), mg.normal(), mg.normal()}; double n = std::sqrt(d[0] * d[0] + d[1] * d[1] + d[2] * d[2]); for (auto& x : d) x *= 1e-11 * L / n; return d; };
+    State r1 = run(s, micro(1), 1, 1e-13, base, out), r2 = run(s, micro(2), 2, 1e-13, base, out);
     double vp; double sR = std::max(compare(ref, r1, vp), compare(ref, r2, vp)); bool structR = compare(ref, r1, vp) < 0 || compare(ref, r2, vp) < 0;
     const double tolX = 1e-9 * L, condX = 1e-10 * L;
     c.obs.s("family", s.family).i("iterations", ref.iters).i("cells_end", (long)ref.cells.size()).d("L", L).d("reference_noise_scatter_over_L", sR / L).s("ref_exception", ref.exc.substr(0, 80));
-    if (structR || sR > condX) { c.v = "skip"; c.msg = "ill-conditioned reference: noise twins (1e-13 relative) already depart by more than 1e-10 L or change connectivity"; c.obs.b("ill_conditioned", true); return c.line(); }
-    int ntr = (int)a.geti("translations", 4); long compared = 0, inconclusive = 0; double maxdev = 0, maxvp = 0, agg_tol = 0; std::string kinds;
+    // two things are compared: the final state, and the state right after the first division of the run.  The final state is not compared
+    // when a contact of the reference family was decided by rounding (see tie_pair): the trajectory after such a tie is a coin flip in every run.
+    const bool ties_ref = ref.tie_pairs > 0 || r1.tie_pairs > 0 || r2.tie_pairs > 0;
+    const bool final_ok = !(structR || sR > condX) && !ties_ref;
+    const double dR1 = compare_div(ref, r1), dR2 = compare_div(ref, r2); const bool div_ok = ref.div_iter >= 0 && dR1 >= 0 && dR2 >= 0 && std::max(dR1, dR2) <= condX;
+    c.obs.b("final_state_comparable", final_ok).b("first_division_comparable", div_ok).i("rounding_decided_contacts_in_reference", ref.tie_pairs).i("first_division_iteration", ref.div_iter);
+    if (!final_ok && !div_ok) { c.v = "skip"; c.msg = ties_ref && !(structR || sR > condX) ? "a contact of the reference run is decided by rounding (node in the plane of a face it is not above) and the run has no division to compare" : "ill-conditioned reference: noise twins (1e-13 relative, shifted by 1e-11 L) already depart by more than 1e-10 L or change connectivity"; c.obs.b("ill_conditioned", true); return c.line(); }
+    int ntr = (int)a.geti("translations", 4); long compared = 0, inconclusive = 0, div_compared = 0, final_compared = 0; double maxdev = 0, maxvp = 0, agg_tol = 0, maxdivdev = 0; std::string kinds;
     for (int k = 0; k < ntr && c.v != "viol"; k++) {
         int kind = g.range(0, 6); std::array<double, 3> t; std::string kn;
         auto dir = [&]() { std::array<double, 3> d = {g.normal(), g.normal(), g.normal()}; double n = std::sqrt(d[0] * d[0] + d[1] * d[1] + d[2] * d[2]); for (auto& x : d) x /= n; return d; };
@@ -82,29 +139,42 @@ static std::string one_case(const Args& a, long i) {
         kinds += kn + ",";
         State tr = run(s, t, 0, 0, base, out); double dvp; double d = compare(ref, tr, dvp); compared++;
         const double tmag = std::sqrt(t[0] * t[0] + t[1] * t[1] + t[2] * t[2]);
-        // The documented signed-tetrahedron volume is evaluated relative to the origin: at distance D from it a cell of radius r with F
-        // faces carries a relative volume error of about 64 eps sqrt(F) (1+D/r)^3 (DESIGN C12).  The pressure inherits it (dp = K dV/V), and
-        // the positions inherit at most that relative error of the displacement accumulated over the run (<= L).
-        double tolVp = 1e-9; { double Dmax = tmag + std::sqrt(std::max({lo[0] * lo[0], hi[0] * hi[0]}) + std::max({lo[1] * lo[1], hi[1] * hi[1]}) + std::max({lo[2] * lo[2], hi[2] * hi[2]}));
-            for (auto& cs : ref.cells) { double r = std::cbrt(3 * std::fabs(cs.V) / (4 * M_PI)); if (r > 0) tolVp = std::max(tolVp, 64 * 2.22e-16 * std::sqrt((double)std::max<size_t>(cs.T.size(), 4)) * std::pow(1 + Dmax / r, 3)); } }
+        // The enclosed volume is summed relative to a node of the cell (repaired: it used to be summed relative to the origin, with a relative
+        // error of 64 eps sqrt(F) (1+D/r)^3 at distance D): no allowance that grows with the distance from the origin is made any more.
+        const double tolVp = 1e-9;
         const double tolXt = std::max(tolX, 10 * tolVp * L);
         agg_tol = std::max(agg_tol, tolVp);
+        auto plus = [&](const std::array<double, 3>& u, const std::array<double, 3>& w) { return std::array<double, 3>{u[0] + w[0], u[1] + w[1], u[2] + w[2]}; };
+        State t1, t2; bool have_twins = false; auto twins = [&]() { if (!have_twins) { t1 = run(s, plus(t, micro(3)), 1, 1e-13, base, out); t2 = run(s, plus(t, micro(4)), 2, 1e-13, base, out); have_twins = true; } };
+        // ---- state right after the first division
+        if (div_ok) { const double dd = compare_div(ref, tr); div_compared++;
+            if (dd < 0 || dd > tolXt) { twins(); const double a1 = compare_div(tr, t1), a2 = compare_div(tr, t2);
+                if (a1 < 0 || a2 < 0 || std::max(a1, a2) > condX) inconclusive++;
+                else if (dd < 0 && compare_div(ref, t1) < 0 && compare_div(r1, tr) < 0) c.viol("translated_run_differs_at_first_division:structure:" + kn, "after a translation by " + std::to_string(tmag / L) + " tissue extents the first division happens in another iteration or yields other daughter meshes, although the reference and the translated inputs are each stable under noise");
+                else if (dd > tolXt && std::min({compare_div(ref, t1), compare_div(ref, t2), compare_div(r1, tr), compare_div(r2, tr)}) > tolXt) c.viol("translated_run_differs_at_first_division:positions:" + kn, "after a translation by " + std::to_string(tmag / L) + " tissue extents the node positions right after the first division deviate by " + sci(dd / L) + " L from the translated reference");
+                else inconclusive++; }
+            else maxdivdev = std::max(maxdivdev, dd / tolXt);
+            if (c.v == "viol") break; }
+        // ---- final state
+        if (!final_ok || tr.tie_pairs > 0) continue;
+        final_compared++;
         bool differs = d < 0 || d > tolXt || dvp > tolVp;
         if (!differs) { maxdev = std::max(maxdev, d / tolXt); maxvp = std::max(maxvp, dvp / tolVp); continue; }
         // does the difference separate the two families?  translated noise twins
-        State t1 = run(s, t, 1, 1e-13, base, out), t2 = run(s, t, 2, 1e-13, base, out); double x;
+        twins(); double x;
+        if (t1.tie_pairs > 0 || t2.tie_pairs > 0) { inconclusive++; continue; }
         double sT1 = compare(tr, t1, x), sT2 = compare(tr, t2, x); bool structT = sT1 < 0 || sT2 < 0; double sT = std::max(sT1, sT2);
         if (structT || sT > condX) { inconclusive++; continue; }                      // translated family is itself ill-conditioned
         // both families are tight: the gap between them is systematic
         double gap = std::min({compare(ref, t1, x), compare(ref, t2, x), compare(r1, tr, x), compare(r2, tr, x)});
         bool structural = d < 0 && compare(ref, t1, x) < 0 && compare(r1, tr, x) < 0;
         if (structural) c.viol("translated_run_differs_in_structure:" + kn, "after a translation by " + std::to_string(tmag / L) + " tissue extents the run ends with another cell count / connectivity / exception although the reference and the translated inputs are each stable under 1e-13 noise");
-        else if (gap > tolXt || d > tolXt) c.viol("translated_run_differs_in_positions:" + kn, "after a translation by " + std::to_string(tmag / L) + " tissue extents node positions deviate by " + std::to_string(d / L) + " L from the translated reference (noise scatter " + std::to_string(std::max(sR, sT) / L) + " L)");
-        else if (dvp > tolVp) c.viol("translated_run_differs_in_volume_or_pressure:" + kn, "volume or pressure deviates by " + std::to_string(dvp) + " relative after translation");
+        else if (gap > tolXt || d > tolXt) c.viol("translated_run_differs_in_positions:" + kn, "after a translation by " + std::to_string(tmag / L) + " tissue extents node positions deviate by " + sci(d / L) + " L from the translated reference (noise scatter " + sci(std::max(sR, sT) / L) + " L, smallest distance between the two families " + sci(gap / L) + " L, tolerance " + sci(tolXt / L) + " L)");
+        else if (dvp > tolVp) c.viol("translated_run_differs_in_volume_or_pressure:" + kn, "after a translation by " + std::to_string(tmag / L) + " tissue extents volume or pressure deviates by " + sci(dvp) + " relative (tolerance " + sci(tolVp) + ")");
         else inconclusive++;
     }
     c.nontrivial = ref.exc.empty() && ref.iters >= 10 && compared > 0; c.sig = hash_combine(hash_combine(hash_str(s.family), (uint64_t)ref.iters), hash_double(ref.cells.empty() ? 0.0 : ref.cells[0].V));
-    c.obs.i("translations_compared", compared).i("translations_inconclusive", inconclusive).d("max_position_deviation_over_tolerance", maxdev).d("max_volume_pressure_deviation_over_tolerance", maxvp).d("largest_volume_tolerance", agg_tol).s("kinds", kinds).b("ill_conditioned", false);
+    c.obs.i("final_states_compared", final_compared).i("first_divisions_compared", div_compared).d("max_division_deviation_over_tolerance", maxdivdev).i("translations_compared", compared).i("translations_inconclusive", inconclusive).d("max_position_deviation_over_tolerance", maxdev).d("max_volume_pressure_deviation_over_tolerance", maxvp).d("largest_volume_tolerance", agg_tol).s("kinds", kinds).b("ill_conditioned", false);
     return c.line();
 }
 
@@ -118,7 +188,7 @@ static int cmd_translate(const Args& a) {
         auto num = [&](const std::string& k) -> long { size_t p = L.find("\"" + k + "\":"); if (p == std::string::npos) return 0; return atol(L.c_str() + p + k.size() + 3); };
         auto dbl = [&](const std::string& k) -> double { size_t p = L.find("\"" + k + "\":"); if (p == std::string::npos) return 0; return atof(L.c_str() + p + k.size() + 3); };
         auto str = [&](const std::string& k) -> std::string { size_t p = L.find("\"" + k + "\":\""); if (p == std::string::npos) return ""; size_t s0 = p + k.size() + 4; return L.substr(s0, L.find('"', s0) - s0); };
-        agg.bin("family:" + str("family")); agg.bin("translations_compared", num("translations_compared")); agg.bin("translations_inconclusive", num("translations_inconclusive")); agg.bin("iterations", num("iterations"));
+        agg.bin("family:" + str("family")); agg.bin("translations_compared", num("translations_compared")); agg.bin("translations_inconclusive", num("translations_inconclusive")); agg.bin("iterations", num("iterations")); agg.bin("final_states_compared", num("final_states_compared")); agg.bin("first_divisions_compared", num("first_divisions_compared")); if (num("rounding_decided_contacts_in_reference") > 0) agg.bin("references_with_rounding_decided_contacts"); agg.maxi("max_division_deviation_over_tolerance", dbl("max_division_deviation_over_tolerance"));
         { std::string ks = str("kinds"); size_t p0 = 0; while (p0 < ks.size()) { size_t q = ks.find(',', p0); if (q == std::string::npos) break; agg.bin("translation:" + ks.substr(p0, q - p0)); p0 = q + 1; } }
         if (L.find("\"ill_conditioned\":true") != std::string::npos) { agg.bin("ill_conditioned_references"); agg.skipped++; }
         agg.maxi("max_position_deviation_over_tolerance", dbl("max_position_deviation_over_tolerance")); agg.maxi("max_volume_pressure_deviation_over_tolerance", dbl("max_volume_pressure_deviation_over_tolerance")); agg.maxi("largest_volume_tolerance", dbl("largest_volume_tolerance")); agg.maxi("reference_noise_scatter_over_L", dbl("reference_noise_scatter_over_L"));
